@@ -550,16 +550,18 @@ theorem truncPoint_ge (r : Bytes) (n j : Nat) (b : UInt8) (hj : j ≤ n) (hb : r
         · exact ih hj'
       · omega
 
-theorem closeReason_length (r : Bytes) : (closeReason r).length ≤ 123 := by
-  unfold closeReason maxCloseReasonLen
+theorem truncReason_length (r : Bytes) : (truncReason r).length ≤ 123 := by
+  unfold truncReason maxCloseReasonLen
   split
   · assumption
   · have := truncPoint_le r 123
     simp only [List.length_take]
     omega
 
-theorem closeReason_prefix (r : Bytes) : closeReason r <+: r := by
-  unfold closeReason
+theorem closeReason_length (r : Bytes) : (closeReason r).length ≤ 123 := truncReason_length _
+
+theorem truncReason_prefix (r : Bytes) : truncReason r <+: r := by
+  unfold truncReason
   split
   · exact List.prefix_refl _
   · exact List.take_prefix _ _
@@ -579,10 +581,10 @@ theorem reasonPrefix_short : ∀ c, c ≤ 16 → (reasonPrefix c).length ≤ 25 
 
 /-- the prefix `code X: ` survives the cut when some byte among 25..123 of the reason starts a rune
     (always the case for valid UTF-8, where at most 3 continuation bytes follow one another) -/
-theorem closeReason_keeps_prefix (p m : Bytes) (hp : p.length ≤ 25)
+theorem truncReason_keeps_prefix (p m : Bytes) (hp : p.length ≤ 25)
     (hstart : 123 < (p ++ m).length → ∃ j b, 25 ≤ j ∧ j ≤ 123 ∧ (p ++ m)[j]? = some b ∧ runeStart b = true) :
-    p <+: closeReason (p ++ m) := by
-  unfold closeReason maxCloseReasonLen
+    p <+: truncReason (p ++ m) := by
+  unfold truncReason maxCloseReasonLen
   split
   · exact List.prefix_append _ _
   · rename_i hlen
